@@ -330,8 +330,9 @@ func dischargeObligation(p *Prog, fn *ssa.Function, o obligation, opts *boundsOp
 			}
 			return true, "facts: " + relevantFacts(facts, o), ""
 		}
-		// lift the unproved (sub-)goals to callers
-		if ok, how := liftToCallers(p, fn, o, residuals, opts, depth); ok {
+		// lift the unproved (sub-)goals to callers; a goal about a local index i with a known bound
+		// i < X is bridged to the parameter-level goal X <= b
+		if ok, how := liftToCallers(p, fn, o, bridgeResiduals(residuals), opts, depth); ok {
 			return true, how, ""
 		}
 		var ws []string
@@ -705,4 +706,42 @@ func liftMake(p *Prog, fn *ssa.Function, t *Term, opts *boundsOpts, depth int) b
 		}
 	}
 	return n > 0
+}
+
+// bridgeResiduals rewrites residual goals a < b whose left side is not parameter-rooted, using a
+// fact a < X (or a <= X) with parameter-rooted X, into X <= b (resp. X < b).
+func bridgeResiduals(rs []residual) []residual {
+	var out []residual
+	for _, r := range rs {
+		if paramRooted(r.a) && paramRooted(r.b) {
+			out = append(out, r)
+			continue
+		}
+		if !paramRooted(r.b) {
+			out = append(out, r)
+			continue
+		}
+		bridged := false
+		for _, f := range r.assume {
+			if f.L.s != r.a.s || !paramRooted(f.R) {
+				continue
+			}
+			switch f.Op {
+			case "<":
+				// a <= X-1; goal a < b (strict) needs X <= b; goal a <= b needs X-1 <= b i.e. X <= b+1: use X <= b (stronger)
+				out = append(out, residual{f.R, r.b, false, r.assume})
+				bridged = true
+			case "<=":
+				out = append(out, residual{f.R, r.b, r.strict, r.assume})
+				bridged = true
+			}
+			if bridged {
+				break
+			}
+		}
+		if !bridged {
+			out = append(out, r)
+		}
+	}
+	return out
 }
